@@ -19,7 +19,8 @@ ASSUMPTIONS = ["Reference Blowfish derived from pi digits reproduces the 16 publ
 def plan(tier):
     if tier == "quick":
         return [("debug", 16, dict(n=500)), ("release", 2, dict(n=400))]
-    return [("debug", 16, dict(n=11000)), ("release", 4, dict(n=6000))]
+    return [("debug", 16, dict(n=11000)), ("release", 4, dict(n=6000)),
+            ("miri", 4, dict(n=2, small=True, threads=3, reps=2))]    # the shared-object workload under Miri's data-race detector
 
 
 def shard(ctx):
